@@ -96,6 +96,7 @@ type Profile struct {
 	PManualRefresher   float64
 	PResize            float64
 	FixedWidth         int
+	PrioAfterFinish    bool // allow priority changes on finished bars (see finding F8)
 	NoSpinner          bool
 	StrategyW          [4]int // random, rtb, pct, starve
 }
@@ -200,7 +201,7 @@ func GenBase(r *Rand, p *Profile) *h.Scenario {
 	if p.FixedWidth > 0 {
 		wide = p.FixedWidth
 	}
-	narrow := r.Bool(p.PNarrow)
+	narrow := r.Bool(p.PNarrow) && !c.Pop // rows must stay attributable to track pops
 	if narrow {
 		wide = r.Range(1, 40)
 	}
@@ -243,19 +244,18 @@ func GenBase(r *Rand, p *Profile) *h.Scenario {
 		c.Terminal = true
 		c.TermW = wide
 		c.TermH = rows + 2 + r.Intn(4)
-		if r.Bool(p.PTightTerm) {
+		if r.Bool(p.PTightTerm) && !c.Pop {
 			c.TermH = r.Range(1, rows+2)
 		}
 		if r.Bool(p.PResize) {
+			// the terminal only grows: rows drawn before a shrink (or re-wrapped by a
+			// narrower width) are beyond the reach of any program
+			at, w, hh := 1, c.TermW, c.TermH
 			for k, n := 0, r.Range(1, 3); k < n; k++ {
-				rs := h.Resize{AtQuery: r.Range(2, 12), W: c.TermW, H: c.TermH}
-				if r.Bool(0.5) {
-					rs.H = r.Range(1, rows+4)
-				}
-				if r.Bool(0.5) && narrow {
-					rs.W = r.Range(1, 60)
-				}
-				c.Resizes = append(c.Resizes, rs)
+				at += r.Range(1, 6)
+				w += r.Intn(3) * r.Intn(12)
+				hh += r.Intn(4)
+				c.Resizes = append(c.Resizes, h.Resize{AtQuery: at, W: w, H: hh})
 			}
 		}
 		if r.Bool(0.3) {
@@ -511,6 +511,9 @@ func genOp(r *Rand, p *Profile, sc *h.Scenario, cand []*barGen, client int, nWri
 	case 4:
 		op = h.Op{K: []int{h.OpCurrent, h.OpCompleted, h.OpAborted, h.OpPair, h.OpPairAC, h.OpIsRunning, h.OpID, h.OpTraverse}[r.Intn(8)], Bar: b.idx}
 	case 5:
+		if b.model.Terminal() && !p.PrioAfterFinish {
+			return h.Op{}, false
+		}
 		if r.Bool(0.5) {
 			op = h.Op{K: h.OpSetPriority, Bar: b.idx, N: int64(r.Range(0, len(sc.Bars)+1))}
 		} else {
